@@ -456,6 +456,21 @@ fn run_case(seed: u64, i: u64, corpus: &Corpus, tier: &str) -> (CaseOut, String,
     }
     return (out, format!("binder zoo with {tried} out-of-scope uses"), None);
   }
+  if i % 10 == 7 {
+    // bounded generics in every shape: one type argument that violates its bound
+    let base = vcore::exprgen::generic_zoo(&mut rng);
+    let mut heap = samlang_heap::Heap::new();
+    if front::check_project(&mut heap, &Project::single("Zoo", &base).with_std()).errors.has_errors() {
+      out.base_rejected = true;
+      return (out, "generic zoo (base rejected)".into(), None);
+    }
+    let faults = vcore::exprgen::generic_faults(&base);
+    let n = faults.len();
+    for (op, text) in faults {
+      judge_mutant(&Project::single("Zoo", &text).with_std(), "Zoo", "Zoo", op, "a type argument that does not satisfy the bound of its type parameter", &mut out);
+    }
+    return (out, format!("generic zoo with {n} bound violations"), None);
+  }
   if i % 10 == 8 {
     // arity / field errors in patterns of every binding construct
     let base = vcore::exprgen::binder_zoo(&mut rng);
